@@ -170,9 +170,11 @@ pub fn run(ctx: &Ctx, ev: &mut Ev) {
     let tiny = !ctx.native();
     // (a) decoders: all prefixes over the family alphabet (NUL included) x feeding schedules x BOM modes x remainders
     if ctx.want("dec") {
-        for &enc in families().iter() {
-            let alpha = if th { byte_alpha(enc) } else { byte_alpha_small(enc) };
-            let pmax = if tiny { 2 } else if enc == UTF_16LE || enc == UTF_16BE { 4 } else if th { 4 } else { 3 };
+        // quick: reduced alphabets, prefixes <= 3 (UTF-16: 4). thorough: full alphabets with prefixes <= 3 AND reduced alphabets with prefixes <= 4
+        let passes: Vec<(bool, usize)> = if tiny { vec![(false, 2)] } else if th { vec![(true, 3), (false, 4)] } else { vec![(false, 3)] };
+        for &(full, pm) in passes.iter() { for &enc in families().iter() {
+            let alpha = if full { byte_alpha(enc) } else { byte_alpha_small(enc) };
+            let pmax = if !tiny && (enc == UTF_16LE || enc == UTF_16BE) { 4 } else { pm };
             let prefixes = strings_over(&alpha, pmax);
             let rests = strings_over(&alpha, if tiny { 1 } else { 2 });
             for prefix in prefixes.iter() {
@@ -189,7 +191,7 @@ pub fn run(ctx: &Ctx, ev: &mut Ev) {
                     } } } }
                 }
             }
-        }
+        } }
         // BOM-look-alike prefixes for every encoding (withheld bytes), all three modes
         for &enc in ALL.iter() {
             if !ev.mine() { continue; }
